@@ -60,6 +60,10 @@ def main():
         prog = facts.load_program()
         chk.units = list(prog.units)
         mod.run(chk, prog)
+        mr = getattr(prog, "main_roles", None)
+        if mr and (mr.get("renamed") or mr.get("spliced") or mr.get("named_steps") or mr.get("unresolved")):
+            chk.notes.append("main() was read through its role model: renamed %s; helpers spliced %s; named steps expanded %s; roles not resolved %s"
+                             % (mr.get("renamed"), mr.get("spliced"), mr.get("named_steps"), mr.get("unresolved")))
         broken = []
         if tier == "thorough":
             broken = thorough(chk, a.prop)
